@@ -24,12 +24,25 @@ def cvc5_check(smt2, timeout_s):
     finally:
         os.unlink(path)
 
+import multiprocessing as _mp, os as _os
+FAIL_COUNT = _mp.Value('i', 0)                # refuted / undecided obligations so far in this run (shared by forked workers)
+FAIL_LIMIT = int(_os.environ.get('PYVC_FAIL_LIMIT', '24'))
+
 def discharge(pc, goal, extra=(), timeout_ms=20000, want_model=True, use_cvc5=True):
+    r = _discharge(pc, goal, extra, timeout_ms, want_model, use_cvc5)
+    if r['result'] != 'unsat':
+        with FAIL_COUNT.get_lock(): FAIL_COUNT.value += 1
+    return r
+
+def _discharge(pc, goal, extra=(), timeout_ms=20000, want_model=True, use_cvc5=True):
     """is (pc and extra) => goal valid?   returns dict(result='unsat'|'sat'|'unknown', backend, secs, model)"""
     t0 = time.time()
     g = z3.simplify(goal) if z3.is_expr(goal) else z3.BoolVal(bool(goal))
     if z3.is_true(g):
         return dict(result='unsat', backend='structural', secs=time.time() - t0, model=None)
+    if FAIL_COUNT.value >= FAIL_LIMIT:
+        # the tree is already known to be broken: do not spend solver time on every further obligation
+        return dict(result='unknown', backend='skipped', secs=0.0, model=None, note='not examined: %d obligations already refuted/undecided in this run' % FAIL_COUNT.value)
     s = _mk_solver(timeout_ms)
     for c in pc: s.add(c)
     for c in extra: s.add(c)
